@@ -380,7 +380,7 @@ def trigger(
         # Capture exceptions for notification events
         LOGGER.error(
             f"Exception raised in user's 'evt.{event.name}' "
-            f"event handler '{func.__name__}'"
+            f"event handler '{getattr(func, '__name__', repr(func))}'"
         )
         LOGGER.exception(exc)
 
